@@ -147,6 +147,19 @@ def simplify_ranges(t):
     return t
 
 
+def reaches_before(fn, a, b):
+    """every path from a to the function's exit passes through b (b post-dominates a): the eviction is always followed by the append"""
+    ip = fn.ipdom()
+    x = a
+    seen = set()
+    while x is not None and x != -1 and x not in seen:
+        if x == b:
+            return True
+        seen.add(x)
+        x = ip.get(x)
+    return False
+
+
 def window(chk, prog):
     fn = prog.fn(TS + "add_timing")
     if fn is None:
@@ -166,19 +179,30 @@ def window(chk, prog):
             op = name.split("::")[-1]
             guard = None
             if op == "pop_front":
-                # the deque's length must be known to exceed the window here
+                # how long the deque is known to be here (lower bound), from ranges and from ordering facts against constants
                 lens = [tm for tm in st.rng if isinstance(tm, tuple) and tm and tm[0] in ("ret", "len")]
-                guard = any(st.rng[tm][0] >= 11 for tm in lens) or any(r[0] == "lt" and sym.is_c(r[1]) and r[1][1] == 10 for r in st.rel)
+                lo = max([st.rng[tm][0] for tm in lens] + [0])
+                for r in st.rel:
+                    if r[0] in ("lt", "le") and sym.is_c(r[1]) and isinstance(r[1][1], int) and isinstance(r[2], tuple) and r[2] and r[2][0] in ("ret", "len"):
+                        lo = max(lo, r[1][1] + (1 if r[0] == "lt" else 0))
+                guard = lo
             seen.append((op, guard, bb))
     an.visit_sites(visit)
     ops = [o for o, g, b in seen]
-    chk.ob("R-ORDER", TS + "add_timing", ops == ["push_back", "pop_front"], "the window is maintained by exactly one push_back followed by a guarded pop_front (found %s)" % ops, fn.where(), key="window-ops")
+    okops = sorted(ops) == ["pop_front", "push_back"]
+    chk.ob("R-ORDER", TS + "add_timing", okops, "the window is maintained by exactly one push_back and one guarded pop_front (found %s)" % ops, fn.where(), key="window-ops")
     g = [g for o, g, b in seen if o == "pop_front"]
-    chk.ob("R-ORDER", TS + "add_timing", g == [True] and maxc == 10, "the oldest sample is removed exactly when the length exceeds MAX_TIMING_SAMPLES = %s" % maxc, fn.where(), key="window-guard")
     pb = [b for o, g, b in seen if o == "push_back"]
     pf = [b for o, g, b in seen if o == "pop_front"]
-    if pb and pf:
-        chk.ob("R-ORDER", TS + "add_timing", fn.dominates(pb[0], pf[0]), "the new sample is appended before the window is trimmed", fn.where(), key="append-first")
+    if okops and maxc is not None:
+        # append-then-trim: the pop needs len > MAX; evict-then-append: the pop needs len >= MAX and must come first on every path
+        append_first = fn.dominates(pb[0], pf[0])
+        need = maxc + 1 if append_first else maxc
+        chk.ob("R-ORDER", TS + "add_timing", g == [need] and maxc == 10, "the oldest sample is removed only when the window is full (MAX_TIMING_SAMPLES = %s; %s: the pop is reached with length >= %s, needs >= %d)" % (
+            maxc, "append, then trim" if append_first else "evict, then append", g[0] if g else "?", need), fn.where(), key="window-guard")
+        chk.ob("R-ORDER", TS + "add_timing", append_first or reaches_before(fn, pf[0], pb[0]), "the new sample is appended before the window is trimmed, or the eviction precedes the append on its path", fn.where(), key="append-first")
+    else:
+        chk.ob("R-ORDER", TS + "add_timing", False, "the oldest sample is removed only when the window is full (MAX_TIMING_SAMPLES = %s)" % maxc, fn.where(), key="window-guard")
     # the pushed sample carries this call's duration and attempts
     ev = sym.Evaluator(prog)
     for f, what in ((TS + "get_average_timing", "mean duration"), (TS + "get_average_attempts", "mean attempts")):
